@@ -7,6 +7,7 @@ package c18
 import (
 	"fmt"
 	"regexp"
+	"strconv"
 	"strings"
 )
 
@@ -135,8 +136,8 @@ type Model struct {
 	Admin        Admin          `json:"admin"`
 	Logging      Logging        `json:"logging"`
 	Plugins      Plugins        `json:"plugins"`
-	Order        []int          `json:"order"` // order of the top-level sections in the file
-	Quote        bool           `json:"quote"` // strings double-quoted (as the shipped file) or plain
+	Order        []int          `json:"order"`            // order of the top-level sections in the file
+	Quote        bool           `json:"quote"`            // strings double-quoted (as the shipped file) or plain
 	Single       bool           `json:"single,omitempty"` // quoted strings are written in single quotes where YAML allows it
 	Comments     bool           `json:"comments"`
 }
@@ -185,7 +186,7 @@ var plainOK = regexp.MustCompile(`^[A-Za-z/][A-Za-z0-9_./$=+^-]*$`)
 var yamlWords = map[string]bool{"true": true, "false": true, "null": true, "yes": true, "no": true, "on": true, "off": true, "y": true, "n": true}
 
 // str renders a string value as a YAML scalar that reads back as exactly that string: plain where
-// that is possible and the model does not ask for quotes; otherwise single-quoted ('' for a quote,
+// that is possible and the model does not ask for quotes; otherwise single-quoted (” for a quote,
 // everything else - $ % # \ : { } - literal) or double-quoted (\\ and \" escaped, everything else
 // literal). Values never contain control characters or line breaks.
 func (w *yw) str(s string) string {
@@ -209,6 +210,8 @@ func typed(n int, typ string) string {
 	switch typ {
 	case "float":
 		return fmt.Sprintf("%d.0", n)
+	case "float-exp":
+		return strconv.FormatFloat(float64(n), 'e', -1, 64)
 	case "string":
 		return fmt.Sprintf("\"%d\"", n)
 	}
